@@ -74,6 +74,14 @@ INFO = {
  'C16qr4': ('golomb example: GolombRelax::merge keeps the MAX last mark instead of the min (no relaxation)', '9 or 10 marks at width 1 only (where the width-1 restricted diagram misses the optimum)'),
  'C16sr4': ('alp example: min_separation_to[j] is the ROW minimum of the separation matrix instead of the column minimum', 'an ASYMMETRIC separation matrix (all shipped files are symmetric), 4 aircraft, binding separations, one particular width'),
  'C18r3': ('SimpleDominanceChecker::is_dominated_or_insert checks under get_mut + retain, drops the guard, then pushes through entry().or_default()', 'two threads recording comparable states a < b on one key, both past retain before either push: store {a, b}; only the THRESHOLD of later dominated verdicts is wrong'),
+ 'C16tr5': ('mcp example: minimum_abs_value_of_substate computes the absolute value of the minimum instead of the minimum of the absolute values (the .abs() moved out of the iterator)', 'a relaxed layer (widths 1-3) whose merged states have benefits for some unassigned vertex which are all <= 0 but not equal, the optimum through that merged node'),
+ 'C16ur5': ('lcs example: LcsDominance::nb_dimensions returns position.len() - 1 although get_coordinate was not shifted: the position in the last string is no longer compared', 'two or three strings, a node further ahead in the last string deleting the node on the only optimal path (7 of 360 random small instances)'),
+ 'C03r5': ('parallel enqueue_cutset: shortcut inside the critical section -- when the ub of the node just expanded is <= best_lb the whole fringe is cleared (the node was the top of the fringe when it was POPPED, not now)', '2 workers: A pops a low-ub node and compiles it; B raises the incumbent past that ub and enqueues children which stay on the fringe; A reaches enqueue_cutset and purges them; the optimum only under a purged node'),
+ 'C04r5': ('parallel worker loop: the two calls of notify_node_finished merged into one placed after the abort block, which breaks out of the loop before it: a worker cut off leaves without giving ongoing back and without notify_all', 'a cut-off which fires, >= 2 workers, a worker parked at that moment and no worker finishing a node normally afterwards'),
+ 'C05r5': ('parallel get_workload: the completion test (ongoing == 0 and fringe empty) runs before the abort test again (reverts the repair of D8, written independently as an alignment with the sequential solver)', '>= 2 workers, a cut-off firing while the other worker is idle or about to find the fringe empty, an incumbent which is not yet optimal'),
+ 'C09r5': ('Mdd::_compute_thresholds: if tot_rub < best_known instead of <= (rediscovery of C14r3)', 'SimpleCache, a rough bound exactly tying the incumbent, the state reached again with a larger value on the only optimal route'),
+ 'C08r5': ('Pooled::_drain_cutset: the children of the root handed out in place of the root (repair of D2) get min(value+rub, value+value_bot, best) as bound: a child merged away has no local bound (value_bot = MIN)', 'Pooled, long arcs, a root child skipping the first variable and merged two layers down, its best completion beating the incumbent'),
+ 'C19r5': ('NoDupFringe::push: the line node.ub = max(new, old) dropped (rediscovery of the first C11 seed): a duplicate with a longer path and a smaller ub lowers the stored ub in place, heap order silently broken', 'NoDupFringe, the same (state, depth) in two cut-sets, the cut-off firing in one particular poll window (4 of 60 random 10-item knapsacks)'),
 }
 HISTORY = {
  'C02': 'first run: MISSED by every check (the hooks then reported lock acquisitions from six named places only; this change adds a second lock() inside a hooked function) -> hooks rewritten as Mutex/Condvar wrappers reporting EVERY acquisition',
